@@ -379,7 +379,9 @@ def one_stack(R, B, vm, items, W):
     want = rc.RC(eb, er)
     if not has_min64(items):
         R.check(c1.hash == want.hash, f'encoding-differs-{mech}', 'cell differs from the VmStack schema encoding (block.tlb)', W)
-    # round trip through the library parser: of its own cell and of the reference cell
+    # round trip through the library parser: of its own cell and of the reference cell (now and then after damaged versions of the cell were given to the parser)
+    if R.rng.random() < 0.15 and want.type == rc.ORD:
+        bridge.damaged_before_valid(R, R.rng, want, lambda c: vm.VmStack.deserialize(c.begin_parse()))
     for src_name, cell in (('own', c1), ('reference', bridge.to_lib(want))):
         st, got = mon.call(vm.VmStack.deserialize, cell.begin_parse())
         R.count(f'parsed:{src_name}')
